@@ -66,9 +66,12 @@ class Env:
 
         # Replace all the symbols in expr with def_name+symbol
         def arg_rename(a):
-            a.name = f"{deff[0]}_{a.name}"
-            a.bitvec = list(map(lambda b: f"{deff[0]}_{b}", a.bitvec))
-            return a
+            # A renamed copy: the description may be bound again (to another caller)
+            return Arg(
+                f"{deff[0]}_{a.name}",
+                a.ttype,
+                list(map(lambda b: f"{deff[0]}_{b}", a.bitvec)),
+            )
 
         def exp_rename(se):
             s, e = se
